@@ -26,6 +26,7 @@ import Gzx.Proofs.QREncEncode
 import Gzx.Proofs.QREncVersion
 import Gzx.Proofs.QREncKernels
 import Gzx.Proofs.QREncFuncAll40
+import Gzx.Proofs.QREncFront
 namespace Gzx.Properties.C07Mirror
 open Gzx Gzx.QRRef Gzx.QREnc
 
@@ -188,15 +189,78 @@ theorem mirror_encodeBack_eq_ref {K : Kernels} (hK : KernelsOK K) (v : Nat) (h1 
       t.matrix = refByteMatrix v f.ec (finalMask maskHint v f.ec f.headerAndDataBits) (refCodewords v f.ec f.headerAndDataBits) :=
   encodeBack_eq_ref hK v h1 h40 (funcOK_all v h1 h40) maskHint f hv hfit
 
-/-- `mirror_encode_eq_ref_partial` — the whole `Encoder_encode` mirror = the reference construction:
-    for every content, level, CHARACTER_SET / GS1_FORMAT / QR_VERSION / QR_MASK_PATTERN hints (of any dynamic type),
-    with `m` the mode `chooseMode` returns and a data segment whose packing is known (`Segment`: proved for numeric,
-    alphanumeric and byte mode by `segment_numeric/alnum/byte`; for Kanji mode it is a hypothesis — the gap:
-    `appendKanjiBytes` = `packKanji` is correspondence-only), the call settles on the reference's version
-    (`versionChoice`: the requested version iff it is in 1..40 and fits, else `minVersion`), writes the reference
-    payload (header segments, character count, data) and returns the reference symbol with the hinted or the
-    reference's own mask — and returns a WriterException exactly when no version is admissible. -/
-theorem mirror_encode_eq_ref_partial {K : Kernels} (hK : KernelsOK K)
+/-- `mirror_kanji_eq_packKanji` (wp `enc2`): `appendKanjiBytes` = the reference's `packKanji` for EVERY Shift_JIS byte
+    string (bytes below 256), error returns included: no encoder result, an odd byte count or a pair outside
+    0x8140..0x9FFC / 0xE040..0xEBBF is the WriterException "Invalid byte sequence" exactly when `packKanji` has no
+    value; otherwise the 13-bit values of the reference are appended. -/
+theorem mirror_kanji_eq_packKanji (sjis : Option (List Nat)) (hb : ∀ bytes, sjis = some bytes → ∀ b ∈ bytes, b < 256)
+    (bits : List Bool) :
+    appendKanjiBytes sjis bits =
+      match sjis.bind packKanji with
+      | some d => .ok (bits ++ d)
+      | none => .error .writer := appendKanjiBytes_eq sjis hb bits
+
+example : appendKanjiBytes (some [0x93, 0x5F]) [] = .ok (toBitsBE 13 0xD9F) := by decide
+example : appendKanjiBytes (some [0x93]) [] = .error .writer ∧ appendKanjiBytes (some [0x80, 0x40]) [] = .error .writer := by decide
+
+/-- `mirror_chooseMode_eq_ref` (wp `enc2`): for every content and CHARACTER_SET hint value `chooseMode` returns — never
+    an error, never a panic — the mode of the reference mode analysis: Kanji iff the hint is Shift_JIS and
+    `isOnlyDoubleByteKanji` (encoder result of even length whose bytes at even positions are lead bytes
+    0x81..0x9F / 0xE0..0xEB), else numeric iff the content is non-empty and all digits, else alphanumeric iff it is
+    non-empty and all characters are in the 45-character table (so: not all digits), else byte. -/
+theorem mirror_chooseMode_eq_ref (content : List Nat) (isSJIS : Bool) (sjis : Option (List Nat)) :
+    chooseMode content isSJIS sjis = .ok (refMode content isSJIS sjis) ∧
+    isOnlyDoubleByteKanji sjis = .ok (onlyDoubleByteKanji sjis) ∧
+    refMode content isSJIS sjis =
+      (if isSJIS && onlyDoubleByteKanji sjis then Mode.kanji
+       else if !content.isEmpty && content.all isDigitB then Mode.numeric
+       else if !content.isEmpty && content.all inTable then Mode.alnum
+       else Mode.byte) :=
+  ⟨chooseMode_eq content isSJIS sjis, isOnlyDoubleByteKanji_eq sjis, rfl⟩
+
+example : refMode [49, 50] false none = .numeric ∧ refMode [49, 65] false none = .alnum ∧
+    refMode [49, 97] false none = .byte ∧ refMode [] false none = .byte ∧
+    refMode [0x93, 0x5F] true (some [0x93, 0x5F]) = .kanji := by decide
+
+/-- `mirror_encode_total` (wp `enc2`): the whole `Encoder_encode` mirror — level check, character set, `chooseMode`,
+    header segments, the data-bit loop of the mode, QR_VERSION hint or `recommendVersion`, character count,
+    `terminateBits`, blocks, mask, matrix — returns a symbol of a version 1..40 or a WriterException: never a panic
+    (index, nil version, make), never out of fuel, for EVERY content, level value and hint values of any type. -/
+theorem mirror_encode_total {K : Kernels} (hK : KernelsOK K) (inp : EncInput) :
+    (∃ t, encode K inp = .ok t ∧ 1 ≤ t.version ∧ t.version ≤ 40) ∨ encode K inp = .error .writer :=
+  encode_total hK inp
+
+/-- `mirror_encode_eq_ref` — the whole `Encoder_encode` mirror = the reference construction, with NO hypothesis
+    about mode or data segment: for every content, valid level, known CHARACTER_SET and GS1_FORMAT / QR_VERSION /
+    QR_MASK_PATTERN hints of any dynamic type, with `modeOf inp` the reference mode analysis and `refSegment` the
+    reference's data encodation of the mode's byte representation: where the reference has no segment (byte-mode
+    encoder failure, a Shift_JIS pair outside the Kanji ranges) the call is a WriterException; otherwise it settles
+    on the reference's version (`versionChoice`: the requested version iff it is in 1..40 and fits, else
+    `minVersion`), writes the reference payload (header segments, character count, data) and returns the reference
+    symbol with the hinted or the reference's own mask — and a WriterException exactly when no version is admissible.
+    Codec parameters (outside the model): the Shift_JIS encoder yields bytes (< 256) and, in Kanji mode, one rune
+    per byte pair; the registry's ECI value is below 128 (the code writes it in eight bits). -/
+theorem mirror_encode_eq_ref {K : Kernels} (hK : KernelsOK K)
+    (inp : EncInput) (ec : EC) (hec : ecOfInt inp.ecLevel = some ec)
+    (hcs : ∀ cs, inp.charset = some cs → cs.known = true)
+    (hsj : ∀ bs, inp.sjis = some bs → ∀ b ∈ bs, b < 256)
+    (hrc : ∀ bs, inp.sjis = some bs → modeOf inp = .kanji → inp.runeCount = bs.length / 2)
+    (he : ∀ e, eciOf inp (modeOf inp) = some e → e < 128) :
+    match refSegment inp (modeOf inp) with
+    | none => encode K inp = .error .writer
+    | some (count, data) =>
+      match versionChoice inp ec (modeOf inp) (headerBits (eciOf inp (modeOf inp)) (gs1OfHint inp.gs1) (modeOf inp)).length data.length with
+      | some v =>
+        ∃ t, encode K inp = .ok t ∧ t.mode = modeOf inp ∧ t.version = v ∧
+          t.headerAndDataBits = payloadBits v (headerBits (eciOf inp (modeOf inp)) (gs1OfHint inp.gs1) (modeOf inp)) (modeOf inp) count data ∧
+          t.maskPattern = ((finalMask inp.mask v ec t.headerAndDataBits : Nat) : Int) ∧
+          t.finalBits = bitsOfBytes (refCodewords v ec t.headerAndDataBits) ∧
+          t.matrix = refByteMatrix v ec (finalMask inp.mask v ec t.headerAndDataBits) (refCodewords v ec t.headerAndDataBits)
+      | none => encode K inp = .error .writer :=
+  encode_eq_ref_full hK inp ec hec hcs hsj hrc he
+
+/-- the same for a mode and segment given explicitly (any `Segment`, e.g. one of `mirror_segment_kinds`) -/
+theorem mirror_encode_eq_ref_segment {K : Kernels} (hK : KernelsOK K)
     (inp : EncInput) (ec : EC) (hec : ecOfInt inp.ecLevel = some ec)
     (hcs : ∀ cs, inp.charset = some cs → cs.known = true) (m : Mode)
     (hmode : chooseMode inp.content (match inp.charset with | some cs => cs.isSJIS | none => false) inp.sjis = .ok m)
@@ -212,6 +276,16 @@ theorem mirror_encode_eq_ref_partial {K : Kernels} (hK : KernelsOK K)
     | none => encode K inp = .error .writer :=
   encode_eq_ref hK inp ec hec hcs m hmode bytes count data seg he
     (fun v hv => funcOK_all v (versionChoice_range hv).1 (versionChoice_range hv).2.1)
+
+/-- non-vacuity of `mirror_encode_eq_ref`: a Kanji-mode input satisfying the codec parameters -/
+example : ∃ inp : EncInput, ecOfInt inp.ecLevel = some .M ∧ modeOf inp = .kanji ∧
+    (∀ bs, inp.sjis = some bs → ∀ b ∈ bs, b < 256) ∧
+    (∀ bs, inp.sjis = some bs → modeOf inp = .kanji → inp.runeCount = bs.length / 2) ∧
+    (∀ e, eciOf inp (modeOf inp) = some e → e < 128) :=
+  ⟨{ content := [0xE7, 0x82, 0xB9], runeCount := 1, ecLevel := 0, charset := some ⟨true, true, some 20⟩,
+     encoded := some [0x93, 0x5F], sjis := some [0x93, 0x5F] }, rfl, by decide, by
+      intro bs h b hb; cases h; simp at hb; omega, by intro bs h _; cases h; rfl, by
+      intro e h; simp [eciOf] at h; omega⟩
 
 /-- the three proved segment kinds -/
 theorem mirror_segment_kinds (inp : EncInput) :
